@@ -30,6 +30,12 @@ where
     tracing::trace!("h11c_connect: channel={}", frame_channel);
     let target = ctx.read().await.target();
     let feature = ctx.read().await.feature();
+    if let crate::context::TargetAddress::DomainPort(host, _) = &target {
+        // would split the request line or inject header lines
+        if host.is_empty() || host.bytes().any(|b| b <= 0x20 || b == 0x7f) {
+            bail!("host name not representable in CONNECT: {:?}", host);
+        }
+    }
     match feature {
         Feature::TcpForward => {
             HttpRequest::new("CONNECT", &target)
